@@ -211,7 +211,7 @@ end
 
 /-- `json.loads(s, parse_constant=str)` : `none` = JSONDecodeError -/
 def jsonLoads (s : Str) : Except PyErr (Option JVal) :=
-  match scanJson (s.length + 1) (skipWs s) with
+  match scanJson (2 * s.length + 2) (skipWs s) with
   | .ok v rest => if (skipWs rest).isEmpty then .ok (some v) else .ok none
   | .bad => .ok none
   | .unmodelled => .error (.unmodelled "json: lone surrogate or nesting")
